@@ -28,7 +28,8 @@ def tasks(tier, seed):
     return ([('m',) + t for t in corpus.method_tasks(tier)] +
             [('h',) + tuple(t) for t in corpus.header_tasks(tier)] +
             [('v',) + tuple(t) for t in values.value_tasks(tier)] +
-            [('misc',), ('subclasses',)] + values.codepoint_tasks() +
+            [('misc',), ('subclasses',), ('key-subclasses',)] +
+            values.codepoint_tasks() +
             [('reuse', m.name, src) for m in spec_table.METHODS if m.args
              for src in ('constructed', 'decoded')] +
             [('reuse', 'header', 'constructed'),
@@ -260,6 +261,102 @@ def check_subclass_values(ctx):
                         ctx.outcome('ok')
         finally:
             p.encode.support_deprecated_rabbitmq(False)
+
+
+def key_classes():
+    """Field names held in str SUBCLASSES, as applications keep them: one
+    enum of header names (the (str, Enum) mixin: str() is 'Class.MEMBER', not
+    the text; member names chosen to sort opposite to their values), a
+    StrEnum, subclasses overriding __str__ / __repr__ / __format__."""
+    import enum
+
+    class Hdr(str, enum.Enum):
+        ZONE = 'attempt'
+        YEAR = 'content-origin'
+        XRAY = 'x-origin'
+        ALPHA = 'x-retries'
+        BETA = 'Zone'
+
+    class Loud(str):
+        def __str__(self):
+            return 'LOUD<%s>' % str.__str__(self)
+
+        def __repr__(self):
+            return 'Loud()'
+
+        def __format__(self, spec):
+            return 'formatted'
+
+    class Plain(str):
+        pass
+
+    kinds = [('(str, Enum) members', list(Hdr)),
+             ('str subclass overriding __str__', [Loud(m.value) for m in Hdr]),
+             ('plain str subclass', [Plain(m.value) for m in Hdr])]
+    if hasattr(enum, 'StrEnum'):
+        Names = enum.StrEnum('Names', {'Z': 'a-first', 'A': 'z-last',
+                                       'M': 'middle'})
+        kinds.append(('StrEnum members', list(Names)))
+    return kinds
+
+
+def check_key_subclasses(ctx):
+    """What goes on the wire is the name's text, in the order of the texts -
+    or the table is refused."""
+    p = lib.pamqp()
+    QD = spec_table.BY_NAME['Queue.Declare']
+    for label, keys in key_classes():
+        texts = [str.__str__(k) for k in keys]
+        for n in range(1, len(keys) + 1):
+            for rot in range(n):
+                ks = (keys[:n])[rot:] + (keys[:n])[:rot]
+                ts = [str.__str__(k) for k in ks]
+                mixed = {k: i for i, k in enumerate(ks)}
+                mixed['plain'] = 'p'
+                plain = dict({t: i for i, t in enumerate(ts)}, plain='p')
+                shapes = [
+                    ('table', lambda: p.encode.field_table(dict(mixed)),
+                     lambda: refcodec.enc_table(plain)),
+                    ('nested', lambda: p.encode.field_table(
+                        {'n': dict(mixed), 'a': [dict(mixed)]}),
+                     lambda: refcodec.enc_table({'n': plain, 'a': [plain]})),
+                    ('Queue.Declare arguments', lambda: p.frame.marshal(
+                        p.commands.Queue.Declare(queue='q',
+                                                 arguments=dict(mixed)), 1),
+                     lambda: refcodec.enc_method_frame(
+                         QD, (0, 'q', False, False, False, False, False,
+                              plain), 1)[0]),
+                    ('headers', lambda: p.frame.marshal(
+                        corpus.construct_header({'headers': dict(mixed)}, 1),
+                        1),
+                     lambda: refcodec.enc_header_frame(
+                         1, {'headers': plain}, 1)[0])]
+                for position, enc, want in shapes:
+                    ctx.case(('keysub', label, n, rot, position), True,
+                             sample=lambda: {'keys': label, 'texts': ts,
+                                             'position': position})
+                    try:
+                        got = enc()
+                        ctx.calls()
+                    except Exception:  # noqa
+                        ctx.outcome('subclass-refused')
+                        continue
+                    ctx.valid()
+                    w = want()
+                    if got != w:
+                        ctx.outcome('mismatch')
+                        ctx.violation(
+                            'bytes|keysub|{}|{}|{}|{}'.format(label, n, rot,
+                                                              position),
+                            'a table whose field names {} are {} ({}) is '
+                            'accepted but encodes as {} where the plain names '
+                            'give {}'.format(ts, label, position,
+                                             got.hex()[:120], w.hex()[:120]),
+                            {'kind': 'key-subclasses'}, w.hex()[:300],
+                            got.hex()[:300])
+                    else:
+                        ctx.outcome('ok')
+        del texts
 
 
 def check_misc(ctx):
@@ -602,6 +699,8 @@ def run(task, ctx):
                                   got.hex()[:300])
                 else:
                     ctx.outcome('ok')
+    elif kind == 'key-subclasses':
+        check_key_subclasses(ctx)
     elif kind == 'subclasses':
         check_subclass_values(ctx)
     elif kind == 'v':
@@ -631,6 +730,8 @@ def replay(case, ctx):
                          case['source'], upto=case['upto'])
     elif kind == 'reuse-header':
         run_reuse_header(ctx, case['source'], upto=case['upto'])
+    elif case['kind'] == 'key-subclasses':
+        check_key_subclasses(ctx)
     elif case['kind'] == 'subclasses':
         check_subclass_values(ctx)
     elif case['kind'] == 'codepoints':
